@@ -12,12 +12,15 @@ fp("dask/dataframe/dask_expr/io/io.py", "FromPandas._divisions_and_locations")
 fp("dask/dataframe/dask_expr/_repartition.py", "Repartition._lower", "Repartition._divisions", "Repartition.npartitions",
    "RepartitionToFewer._compute_partition_boundaries", "RepartitionToFewer._layer", "RepartitionToFewer._divisions",
    "RepartitionToMore._nsplits", "RepartitionToMore._layer", "RepartitionDivisions._layer", "_clean_new_division_boundaries",
-   "RepartitionSize._partition_boundaries")
+   "RepartitionSize._partition_boundaries", "RepartitionSize._nsplits", "RepartitionSize._layer")
 fp("dask/dataframe/core.py", "split_evenly", "check_divisions")
+fp("dask/utils.py", "iter_chunks")
 fp("dask/dataframe/methods.py", "boundary_slice")
 # C41
 fp("dask/dataframe/dask_expr/_indexing.py", "LocSlice._divisions", "LocSlice._layer", "LocSlice.start", "LocSlice.stop",
-   "LocSlice._lower", "LocIndexer._loc", "LocIndexer._loc_slice", "LocList._layer_information")
+   "LocSlice.istart", "LocSlice.istop", "LocSlice._lower", "LocIndexer._loc", "LocIndexer._loc_slice", "LocList._layer_information")
+fp("dask/dataframe/dask_expr/_shuffle.py", "BaseSetIndexSortValues._divisions", "BaseSetIndexSortValues.npartitions")
+fp("dask/dataframe/dask_expr/_concat.py", "Concat._monotonic_divisions")
 fp("dask/dataframe/dask_expr/_expr.py", "Partitions._divisions", "Partitions._simplify_down", "PartitionsFiltered.divisions",
    "Head._simplify_up", "Tail._simplify_up")
 fp("dask/dataframe/indexing.py", "_partition_of_index_value", "_partitions_of_index_values")
@@ -26,6 +29,12 @@ fp("dask/dataframe/shuffle.py", "shuffle_group", "shuffle_group_2", "shuffle_gro
 fp("dask/dataframe/dask_expr/_shuffle.py", "SimpleShuffle._layer", "TaskShuffle._layer", "DiskShuffle._layer",
    "DiskShuffle._shuffle_group", "SortValues._lower", "SetIndex._lower", "AssignPartitioningIndex.operation")
 fp("dask/utils.py", "digit", "insert")
+fp("dask/dataframe/dask_expr/_shuffle.py", "Shuffle._lower", "RearrangeByColumn._lower", "SimpleShuffle._shuffle_group",
+   "SetPartition._lower", "_calculate_divisions", "BaseSetIndexSortValues._divisions", "SortValues._divisions",
+   "_SetIndexPost.operation")
+fp("dask/dataframe/dask_expr/_reductions.py", "DropDuplicates", "Unique")
+fp("dask/dataframe/dask_expr/_util.py", "_get_shuffle_preferring_order")
+fp("dask/dataframe/shuffle.py", "collect")
 # C38
 fp("dask/dataframe/dask_expr/_groupby.py", "SingleAggregation.chunk", "SingleAggregation.aggregate", "GroupByReduction",
    "IdxMin", "IdxMax", "Mean", "Var", "NUnique", "nunique_df_aggregate", "nunique_df_combine", "Median", "Cov",
@@ -41,7 +50,8 @@ fp("dask/dataframe/dask_expr/_merge.py", "Merge._lower", "Merge.is_broadcast_joi
 fp("dask/dataframe/multi.py", "merge_chunk", "_split_partition")
 fp("dask/dataframe/dask_expr/_concat.py", "Concat._lower", "Concat._simplify_up", "Concat._divisions")
 # C47
-fp("dask/dataframe/io/csv.py", "pandas_read_text", "coerce_dtypes", "text_blocks_to_pandas", "_read_csv", "read_pandas", "to_csv")
+fp("dask/dataframe/io/csv.py", "pandas_read_text", "coerce_dtypes", "text_blocks_to_pandas", "_read_csv", "read_pandas", "to_csv",
+   "_header_row", "block_mask", "block_mask_last", "_write_csv")
 
 
 def _method_name(node):
